@@ -5,6 +5,7 @@ import PyTrie.Lemmas.VersionsConsistent
 import PyTrie.Lemmas.WalkDRefines
 import PyTrie.Lemmas.WalkDRun
 import PyTrie.Lemmas.WalkDDefined
+import PyTrie.Lemmas.WalkHistory
 import PyTrie.Props.C08
 /-! # C09 — a fog-guided walk finds everything, even while the trie changes
 
@@ -235,5 +236,35 @@ theorem raw_walk_never_stuck (H : Bytes → Bytes) (hlen : ∀ b, (H b).length =
     (hok : SchedOk H sched) (hfog : InFogRun H cstartD (sched.map StepT.toD)) :
     ∃ s' : CState, crunDR H cstartD (sched.map StepT.toD) = .ok (some (toCD H s')) :=
   crunDR_defined H hlen sched hok hfog
+
+end PyTrie.Props.C09
+
+/-! ## The walk interleaved with an executor history, end to end
+
+`WEv` = a `set`/`delete` call of the executor (pruning on or off) or a step of the walk; `schedOf` gives every step the
+executor's database and root of that moment. The premise `SchedOk` is discharged from the run-level premise of the history. -/
+namespace PyTrie.Props.C09
+open PyTrie PyTrie.Hex PyTrie.HexD PyTrie.HexW PyTrie.HexRaw PyTrie.HexFree PyTrie.Fog PyTrie.Walk
+open PyTrie.Props.C01 (Op run spec)
+
+/-- **a fog-guided walk over the executor's own databases** — modifications between the steps, pruning on or off, frontier
+    cache with stale entries, retry from the root when a stale parent no longer resolves —: never raises; every met pair
+    was held by the trie after some prefix of the history; once the fog is complete every key that had the same value at
+    every step of the walk has been met with it -/
+theorem walk_over_history (H : Bytes → Bytes) (hlen : ∀ b, (H b).length = 32) (prune : Bool) (evs : List WEv) (T : TrieSt)
+    (s : OpSt) (h : ReachVersions H prune (opsOf evs) T s) :
+    let sched := schedOf H (initT H prune) initS evs
+    (crunDR H cstartD (sched.map StepT.toD) = .ok none) ∨
+    ∃ s' : CState, crunDR H cstartD (sched.map StepT.toD) = .ok (some (toCD H s')) ∧
+      (∀ k v, (k, v) ∈ s'.met → v ≠ [] ∧ ∃ i, i ≤ (opsOf evs).length ∧ get (run ((opsOf evs).take i)) k = v) ∧
+      (s'.fog = [] → ∀ k val, val ≠ [] → (∀ e ∈ sched, get e.t k = val) → (k, val) ∈ s'.met) :=
+  PyTrie.HexFree.walk_over_history H hlen prune evs T s h
+
+/-- … and with every prefix taken from the fog of that moment it runs to the end of the schedule (no step rejected) -/
+theorem walk_over_history_never_stuck (H : Bytes → Bytes) (hlen : ∀ b, (H b).length = 32) (prune : Bool) (evs : List WEv)
+    (T : TrieSt) (s : OpSt) (h : ReachVersions H prune (opsOf evs) T s)
+    (hfog : InFogRun H cstartD ((schedOf H (initT H prune) initS evs).map StepT.toD)) :
+    ∃ s' : CState, crunDR H cstartD ((schedOf H (initT H prune) initS evs).map StepT.toD) = .ok (some (toCD H s')) :=
+  PyTrie.HexFree.walk_over_history_never_stuck H hlen prune evs T s h hfog
 
 end PyTrie.Props.C09
